@@ -18,7 +18,7 @@ INFO = {
     "outside": ["symbolic numeric values (covered value-wise by C06)", "rename shapes outside T13/T13b", "json_menus / docs formats"],
     "stubs": ["memfs behind esp_kconfiglib.core and kconfgen.core file access", "five small readers of the output texts (vk/outputs.py) are trusted"],
 }
-BUDGET = {"quick": 200, "thorough": 1100}
+BUDGET = {"quick": 200, "thorough": 800}
 
 
 def rename_map(tid):
